@@ -67,15 +67,16 @@ class Lock:
 # files of the development whose failure concerns only some properties (everything else concerns all of them)
 SRC_SCOPE = {'theories/Gen/Src': ['C08', 'C09', 'C13', 'C15'], 'theories/SrcTie_clock': ['C15'], 'theories/SrcTie_window': ['C13'],
              'theories/SrcTie_pt': ['C08', 'C09'], 'theories/Gen/SrcNum': ['C01', 'C03'], 'theories/SrcTie_mh': ['C01'],
-             'theories/SrcTie_swap': ['C03'], 'theories/SrcSupport': ['C01', 'C03'], 'theories/Gen/SrcAdapt': ['C13'],
-             'theories/SrcTie_adapt': ['C13'], 'theories/Gen/SrcLadder': ['C17'], 'theories/SrcTie_ladder': ['C17'], 'theories/Gen/SrcCalls': ['C18'], 'theories/Gen/SrcRng': ['C04']}
+             'theories/SrcTie_swap': ['C03'], 'theories/SrcSupport': ['C01', 'C03', 'C20'], 'theories/Gen/SrcAdapt': ['C13'],
+             'theories/SrcTie_adapt': ['C13'], 'theories/Gen/SrcLadder': ['C17'], 'theories/SrcTie_ladder': ['C17'], 'theories/Gen/SrcCalls': ['C18'], 'theories/Gen/SrcRng': ['C04'], 'theories/Gen/SrcH5': ['C20'], 'theories/SrcTie_h5': ['C20']}
 
 
 def translate_sources():
     """Regenerate coq/theories/Gen/Src.v from /repo's current sources (tools/py2coq.py, fail-closed)."""
     rc, out = sh('%s %s %s' % (sys.executable, os.path.join(VERIF, 'tools', 'py2coq.py'), os.path.join(THEORIES, 'Gen', 'Src.v') + ' ' + os.path.join(THEORIES, 'Gen', 'SrcCalls.v') + ' ' + os.path.join(THEORIES, 'Gen', 'SrcRng.v')), timeout=120)
     rc2, out2 = sh('%s %s %s' % (sys.executable, os.path.join(VERIF, 'tools', 'py2coq_num.py'), os.path.join(THEORIES, 'Gen', 'SrcNum.v') + ' ' + os.path.join(THEORIES, 'Gen', 'SrcAdapt.v') + ' ' + os.path.join(THEORIES, 'Gen', 'SrcLadder.v')), timeout=120)
-    return (out.strip() + '\n' + out2.strip()).strip()
+    rc3, out3 = sh('%s %s %s' % (sys.executable, os.path.join(VERIF, 'tools', 'py2coq_h5.py'), os.path.join(THEORIES, 'Gen', 'SrcH5.v')), timeout=120)
+    return '\n'.join(x.strip() for x in (out, out2, out3) if x.strip())
 
 
 def ensure_build():
